@@ -59,7 +59,7 @@ def check_line(line, obs, file_nl=b'\n', follow=b'', lead=b''):
     case = {'line': line, 'file_newline': file_nl, 'follow': follow,
             'lead': lead}
     if accept and exc is not None and \
-            common.is_parse_error(exc) and exc.linenum == 1 \
+            common.is_parse_error(exc) \
             and semantically_invalid(parsed[3]):
         # grammatical, but a known option carries a value the reader may
         # legitimately refuse (e.g. an unknown codec): not the grammar's
@@ -96,9 +96,12 @@ def check_line(line, obs, file_nl=b'\n', follow=b'', lead=b''):
             obs.violation('invalid_header_raised:%s'
                           % common.exc_mechanism(exc), case, repr(exc))
             return
-        if exc.linenum != 1 or len(recs) != 1:
+        if len(recs) != 1 or not (0 <= exc.linenum <= 3 + data.count(b'\n')):
             obs.violation('invalid_header_error_position', case,
                           {'linenum': exc.linenum, 'records': len(recs)})
+        elif exc.linenum != 1 + lead.count(b'\n') * 0:
+            # C11 does not say which line number the rejection carries
+            obs.count('error_line_not_the_header_line(diagnostic)')
 
 
 def semantically_invalid(pairs):
